@@ -21,3 +21,14 @@ m('c18-bo-resonant', 'mofun/rough_uff.py', "bond_atom_types <= {'C_R', 'N_R', 'O
 m('c18-angle-rik', 'mofun/rough_uff.py', 'rik = sqrt(rij**2 + rjk**2 - 2 * rij * rjk * cos(theta0rad))', 'rik = sqrt(rij**2 + rjk**2 + 2 * rij * rjk * cos(theta0rad))', 'C18')
 m('c18-harmless-commute', 'mofun/rough_uff.py', 'rij = ri + rj + rBO - rEN', 'rij = rj + ri - rEN + rBO', 'C18', 'pass')
 m('c18-pair-sigma', 'mofun/rough_uff.py', '(2**(-1./6.))', '(2**(1./6.))', 'C18')
+# ---- C10
+m('c10-gt-i-plus-1', 'mofun/atoms.py', 'where=updated_arr>i)', 'where=updated_arr>i+1)', 'C10')
+m('c10-ge-equivalent', 'mofun/atoms.py', 'where=updated_arr>i)', 'where=updated_arr>=i)', 'C10', 'pass', note='equivalent mutant: survivors never equal a deleted index')
+m('c10-any-to-all', 'mofun/atoms.py', 'if np.any([a in sorted_deleted_indices for a in atom_idx_tuple]):', 'if np.all([a in sorted_deleted_indices for a in atom_idx_tuple]):', 'C10')
+m('c10-append-off', 'mofun/atoms.py', 'arr_idx_to_delete.append(i)', 'arr_idx_to_delete.append(i + 1)', 'C10')
+m('c10-ascending', 'mofun/atoms.py', 'sorted_indices = sorted(indices, reverse=True)', 'sorted_indices = sorted(indices)', 'C10')
+m('c10-subtract-2', 'mofun/atoms.py', 'np.subtract(updated_arr, 1, out=updated_arr', 'np.subtract(updated_arr, 2, out=updated_arr', 'C10')
+m('c10-types-not-deleted', 'mofun/atoms.py', '            self.angle_types = np.delete(self.angle_types, arr_idx_to_delete, axis=0)\n', '', 'C10')
+m('c10-charges-not-deleted', 'mofun/atoms.py', '        self.charges = np.delete(self.charges, indices, axis=0)\n', '', 'C10')
+m('c10-pop-noop', 'mofun/atoms.py', '        del(self[[pos]])', '        del(self, pos)', 'C10')
+m('c10-pop-negative', 'mofun/atoms.py', '        if pos < 0:\n            pos += len(self)\n        del(self[[pos]])', '        del(self[[pos]])', 'C10')
